@@ -118,3 +118,10 @@ package core
 //@ interface RowSource.GetUntil
 //@   params this
 //@   pure
+
+// Field identity is name + expression text (C15: position plays no role).
+//@ func (Field).String
+//@   pure
+//@ func (Field).Equals
+//@   pure
+//@   ensures val: result == (f.String() == o.String())
